@@ -16,11 +16,11 @@ CHECKS = {
    note="gopher-lua under default options is the baseline of (a); (b) uses programs with known values; (c) trusts the slice models and the documented capacity rule",
    technique="property-based metamorphic testing across configurations, boundary sweeps, and stateful model-based testing (rapid)"),
  "C11": dict(engine="E5 cancellation enumeration", level="fault_enumeration", design="DESIGN.md 4/C11",
-   text="31 non-terminating and terminating script templates and generated programs are cancelled at every main-thread dispatch poll and inside every tick() host call of a bounded prefix, with fixed and auto-growing call stacks; after cancel() returns no host call may start, DoString must return an error carrying the context's reason within a bounded number of further polls, never a Go panic; blocked channel receive/send/select must wake",
+   text="35 non-terminating and terminating script templates and generated programs are cancelled at every main-thread dispatch poll and inside every tick() host call of a bounded prefix, with fixed and auto-growing call stacks; after cancel() returns no host call may start, DoString must return an error carrying the context's reason within a bounded number of further polls, never a Go panic; blocked channel receive/send/select must wake; generated programs run with and without a never-done context must behave identically",
    note="trusts that the VM polls the context once per dispatched instruction; cancellation points of one script are enumerated completely within the stated prefix, the set of scripts is fixed plus generated; the blocked-channel verdict uses goroutine-state sampling with a confirming observation",
    technique="fault injection: exhaustive enumeration of cancellation points over script templates and generated programs, counting (not timing) oracle"),
  "C05": dict(engine="E1 fault enumeration", level="fault_enumeration", design="DESIGN.md 4/C05",
-   text="(a) every fault(i) site of every generated program x 12 fault kinds is run against the reference interpreter with the same fault, with interpreter-state snapshots around each protected call; (b) a fault is injected at every instruction boundary of generated 'prologue; pcall(pure body); epilogue' programs through a context that fires at exactly the k-th dispatch, and the outcome is checked against the fault-free run (prefix of side effects, monotone in k, identical failure epilogue, equal snapshots, no Go panic)",
+   text="(a) every fault(i) site of every generated program x 14 fault kinds (incl. call-stack and registry overflow) is run against the reference interpreter with the same fault, with interpreter-state snapshots around each protected call; (b) a fault is injected at every instruction boundary of generated 'prologue; pcall(pure body); epilogue' programs through a context that fires at exactly the k-th dispatch, and the outcome is checked against the fault-free run (prefix of side effects, monotone in k, identical failure epilogue, equal snapshots, no Go panic)",
    note="(a) trusts verif/luaref; (b) trusts only that the VM polls the context once per dispatched instruction; fault sites are enumerated completely per program, programs are sampled",
    technique="fault injection over generated programs: exhaustive per-program site and instruction enumeration, reference-interpreter and metamorphic oracles"),
  "C09": dict(engine="E4 stateful model", level="exploration", design="DESIGN.md 4/C09, props/c09/NOTES.md",
@@ -68,7 +68,7 @@ CHECKS = {
    note="trusts the in-memory model (ISO C stdio semantics as read from the standard and the Lua manual), cross-checked against glibc; the local filesystem",
    technique="stateful model-based property testing (rapid state machines + bounded-exhaustive short histories)"),
  "C01": dict(engine="E1 program differential", level="exploration", design="DESIGN.md 3, 4/C01",
-   text="generated core-language programs (three lexical layouts, size-adversarial shapes) run on gopher-lua and on an independent reference interpreter; traces, chunk results, failure and failing line must agree",
+   text="generated core-language programs (three lexical layouts, size-adversarial shapes) run on gopher-lua and on an independent reference interpreter; traces, chunk results, failure and failing line must agree; one expression rendered with its leaves in 16 storage forms must give the bit-identical value",
    note="trusts verif/luaref (own Lua 5.1 parser and definitional interpreter, written from the manual); cases it marks Unspecified are discarded and counted",
    technique="property-based differential testing (rapid) against a reference interpreter, with shrinking"),
  "C08": dict(engine="E3 loader fuzz", level="exploration", design="DESIGN.md 4/C08",
